@@ -18,8 +18,9 @@ GEN_FILE = LEAN / "SciVerif" / "Generated" / "C19Tables.lean"
 RULE = ("corpus of recon inputs and past failures first (corpus/C19/cases.json), then random DIP sources (1-7 parameters; the kind "
         "class bool/int/uint/float/str is drawn first, then one of the widths the live parser accepts; scalars and rectangular arrays "
         "of rank 1-3 with independent extents; type min/max and 0.1/1e-5/1e300-like values; strings from a word list, from an alphabet "
-        "with quotes, $, backslash, blanks, and from a pool of hostile fragments such as a\\\"b, $HOME, `ls`, \\x41, trailing "
-        "backslash) parsed by the real DIP; each environment is exported through all 9 back-ends with random options (rename, guard, "
+        "with quotes, $, backslash, blanks, from a pool of hostile fragments such as a\\\"b, $HOME, `ls`, \\x41, trailing "
+        "backslash, and from a pool of non-ASCII fragments (Latin-1, Greek, CJK, symbols, characters beyond the BMP)) parsed by "
+        "the real DIP; each environment is exported through all 9 back-ends with random options (rename, guard, "
         "define/const lists up to all scalars, module, export, units) and query/tag selections; non-trivial = selection contains an "
         "array or >= 3 parameters; distinct = canonical JSON of (source, back-end, options, selection)")
 ASSUMPTIONS = [
@@ -31,7 +32,9 @@ ASSUMPTIONS = [
     "1e-15 otherwise; Python's repr/float round trip is assumed; -0.0, inf, nan and float32 nodes holding values outside the "
     "binary32 range are outside the domain",
     "Fortran character values are compared modulo trailing blanks (Fortran's own equality); len= is not compared",
-    "none values, empty strings, non-ASCII or non-printable strings, empty arrays, parameters in `define` that are arrays, names "
+    "string VALUES may hold any printable character (ASCII 32..126, and every printable code point above U+00A0, BMP or not); "
+    "sources are written and tool output is read as UTF-8; names, units, guards and module names stay ASCII",
+    "none values, empty strings, strings with control characters, empty arrays, parameters in `define` that are arrays, names "
     "that are not identifiers after the documented mapping (compiled back-ends) and tag selections with more than one selector are "
     "outside the domain",
     "a preprocessor definition has no declared type: only its value is compared (booleans as 1/0)",
@@ -62,7 +65,7 @@ def tmpdir():
 
 def sh(cmd, cwd=None, timeout=120, input=None):
     p = subprocess.run(cmd, cwd=cwd, stdout=subprocess.PIPE, stderr=subprocess.PIPE, text=True,
-                       timeout=timeout, input=input, errors="replace")
+                       timeout=timeout, input=input, errors="replace", encoding="utf-8")
     return p.returncode, p.stdout, p.stderr
 
 
@@ -167,7 +170,7 @@ def measure_targets(rows):
         ts = sorted({t for b, k, n, t in rows if b == backend and t})
         body = "\n".join('  P(%s, "%s");' % (t, t) for t in ts if t != "char*")
         src = os.path.join(d, "probe_%s.%s" % (backend, ext))
-        open(src, "w").write(C_PROBE % {"inc": inc, "body": body})
+        open(src, "w", encoding="utf-8").write(C_PROBE % {"inc": inc, "body": body})
         jobs.append((backend, [comp, "-w", "-o", src + ".x", src], src + ".x"))
         if "char*" in ts:
             info[(backend, "char*")] = ("str", 0)
@@ -181,7 +184,7 @@ def measure_targets(rows):
         lines.append("  print '(A,A,I0,A,A)', '%s', '|', storage_size(v%d), '|', '%s'" % (t, i, cls))
     lines.append("end program")
     src = os.path.join(d, "probe_f.f90")
-    open(src, "w").write("\n".join(lines) + "\n")
+    open(src, "w", encoding="utf-8").write("\n".join(lines) + "\n")
     jobs.append(("fortran", ["gfortran", "-w", "-o", src + ".x", src], src + ".x"))
     # Rust
     ts = sorted({t for b, k, n, t in rows if b == "rust" and t})
@@ -198,7 +201,7 @@ def measure_targets(rows):
                          % (t, t, t, t))
     lines.append("}")
     src = os.path.join(d, "probe_r.rs")
-    open(src, "w").write("\n".join(lines) + "\n")
+    open(src, "w", encoding="utf-8").write("\n".join(lines) + "\n")
     jobs.append(("rust", ["rustc", "-A", "warnings", "-o", src + ".x", src], src + ".x"))
     if "&str" in ts:
         info[("rust", "&str")] = ("str", 0)
@@ -419,7 +422,8 @@ def well_typed(kind, v):
         return isinstance(v, int) and not isinstance(v, bool)
     if kind == "float":
         return isinstance(v, float) and math.isfinite(v) and not (v == 0 and math.copysign(1, v) < 0)
-    return isinstance(v, str) and v != "" and all(32 <= ord(c) < 127 for c in v)
+    # printable text: ASCII 32..126 and every printable character outside ASCII (BMP and beyond); no control characters
+    return isinstance(v, str) and v != "" and all((32 <= ord(c) < 127) or (ord(c) > 160 and c.isprintable()) for c in v)
 
 
 # ---------------------------------------------------------------- generators
@@ -433,7 +437,16 @@ HOSTILE = ['a\\"b', "it\\'s", '$HOME', '`ls`', '\\n', 'x\\', '""', "''", '\\\\',
            '"', "'", '\\', 'C:\\dir', '%s %d', '/* c */', '// c', '\\u0041', '\\x41', "\\0", '??/', "a''b", 'a""b', '&amp;', ' #', '#']
 
 
+# characters outside ASCII: Latin-1, Greek, symbols, CJK (BMP) and beyond the BMP (emoji, mathematical alphanumerics)
+NONASCII = ['µm', 'Å', 'Jörg', '°C', 'é', 'Ω', 'λ', '√2', '中文', '€', '😀', '𝛼', 'ÅÅÅÅÅÅ', 'ß', '×10⁻³', 'naïve', '±', '½', 'Ünï',
+            '💡x', 'g/cm³', 'Ångström', 'π', '→', '𝔘', 'ÿ', 'Ā', '\uffee', '\U0001f9ea', 'Δt']
+
+
 def gen_string(rng, special):
+    if rng.random() < (0.3 if special else 0.15):
+        s = "".join(rng.choice(NONASCII + WORDS[:4] + ([" "] if not special else HOSTILE[:12]))
+                    for _ in range(rng.randint(1, 3))).strip()
+        return s or "µ"
     if not special and rng.random() < 0.5:
         return rng.choice(WORDS)
     if special and rng.random() < 0.4:
@@ -628,7 +641,7 @@ def obs_c(o):
     elems = []
     for e in o["elems"]:
         if e[0] == "s":
-            elems.append(bytes.fromhex(e[1] if len(e) > 1 else "").decode("latin-1"))
+            elems.append(bytes.fromhex(e[1] if len(e) > 1 else "").decode("utf-8", "replace"))
         elif e[0] == "f":
             elems.append(float(e[1]))
         else:
@@ -656,9 +669,9 @@ def run_c(workdir, tag, text, syms, cpp):
     hdr = os.path.join(workdir, "%s.h" % tag)
     src = os.path.join(workdir, "%s_main.%s" % (tag, ext))
     exe = os.path.join(workdir, "%s.x" % tag)
-    open(hdr, "w").write(text + "\n")
+    open(hdr, "w", encoding="utf-8").write(text + "\n")
     body = "\n".join(c_body(i, s) for i, s in syms)
-    open(src, "w").write(C_MAIN % {"header": os.path.basename(hdr), "body": body})
+    open(src, "w", encoding="utf-8").write(C_MAIN % {"header": os.path.basename(hdr), "body": body})
     rc, out, err = sh([comp, "-w", "-Werror=int-conversion", "-o", exe, src], cwd=workdir)
     if rc != 0:
         return None, err
@@ -761,7 +774,7 @@ def run_f(workdir, tag, text, syms, module):
     exe = os.path.join(workdir, "%s.x" % tag)
     body = "\n".join(f_body(i, s) for i, s in syms)
     prog = "program c19_main\n  use c19_printers\n  use %s\n  implicit none\n  integer :: c19_i0, c19_i1, c19_i2, c19_i3\n%s\nend program\n" % (module, body)
-    open(src, "w").write(text + "\n" + F_PRINTERS + prog)
+    open(src, "w", encoding="utf-8").write(text + "\n" + F_PRINTERS + prog)
     rc, out, err = sh(["gfortran", "-w", "-ffree-line-length-none", "-J", os.path.join(workdir, tag + "_mod"), "-o", exe, src],
                       cwd=workdir)
     if rc != 0:
@@ -789,7 +802,7 @@ def run_f(workdir, tag, text, syms, module):
             if kind == "str":
                 n = int(f[2])
                 cur["kinds"].add(("str", 0))
-                cur["elems"].append(bytes.fromhex(f[3] if len(f) > 3 else "").decode("latin-1"))
+                cur["elems"].append(bytes.fromhex(f[3] if len(f) > 3 else "").decode("utf-8", "replace"))
             else:
                 cur["kinds"].add((kind, bits))
                 if kind == "int":
@@ -855,10 +868,10 @@ def run_rust(workdir, tag, text, syms):
     cfg = os.path.join(workdir, "%s_cfg.rs" % tag)
     src = os.path.join(workdir, "%s_main.rs" % tag)
     exe = os.path.join(workdir, "%s.x" % tag)
-    open(cfg, "w").write(text + "\n")
+    open(cfg, "w", encoding="utf-8").write(text + "\n")
     body = "\n".join('  println!("sym %d"); println!("size {}", std::mem::size_of_val(&%s)); %s.c19_p();' % (i, s["name"], s["name"])
                      for i, s in syms)
-    open(src, "w").write(R_MAIN % {"file": os.path.basename(cfg), "body": body})
+    open(src, "w", encoding="utf-8").write(R_MAIN % {"file": os.path.basename(cfg), "body": body})
     rc, out, err = sh(["rustc", "--edition", "2021", "-C", "debuginfo=0", "-C", "opt-level=0", "-o", exe, src], cwd=workdir)
     if rc != 0:
         return None, err
@@ -885,7 +898,7 @@ def run_rust(workdir, tag, text, syms):
             t = f[1]
             cur["types"].add(t)
             if t == "str":
-                v = bytes.fromhex(f[2] if len(f) > 2 else "").decode("latin-1")
+                v = bytes.fromhex(f[2] if len(f) > 2 else "").decode("utf-8", "replace")
             elif t == "bool":
                 v = f[2] == "true"
             elif t in ("f32", "f64"):
@@ -954,23 +967,23 @@ def read_bash(workdir, tag, text, syms):
     ok = [(i, s) for i, s in enumerate(syms) if IDENT.match(s["name"])]
     if whole:
         cfg = os.path.join(workdir, "%s.sh" % tag)
-        open(cfg, "w").write(text + "\n")
+        open(cfg, "w", encoding="utf-8").write(text + "\n")
         lines.append("source ./%s 2>/dev/null" % os.path.basename(cfg))
     for i, s in ok:
         n = s["name"]
         if not whole:
             cfg = os.path.join(workdir, "%s_%d.sh" % (tag, i))
-            open(cfg, "w").write("\n".join(chunks[i]) + "\n")
+            open(cfg, "w", encoding="utf-8").write("\n".join(chunks[i]) + "\n")
             lines.append("( source ./%s 2>/dev/null" % os.path.basename(cfg))
         lines.append("printf 'sym\\0%%s\\0attr\\0%%s\\0' %d \"${%s@a}\"" % (i, n))
         lines.append("for c19_k_ in \"${!%s[@]}\"; do printf 'k\\0%%s\\0v\\0%%s\\0' \"$c19_k_\" \"${%s[$c19_k_]}\"; done" % (n, n))
         if not whole:
             lines.append(")")
     script = os.path.join(workdir, "%s_main.sh" % tag)
-    open(script, "w").write("\n".join(lines) + "\n")
+    open(script, "w", encoding="utf-8").write("\n".join(lines) + "\n")
     p = subprocess.run(["bash", "--norc", "--noprofile", script], cwd=workdir, stdout=subprocess.PIPE,
                        stderr=subprocess.DEVNULL, timeout=30, env={"PATH": "/usr/bin:/bin"})
-    toks = p.stdout.decode("latin-1").split("\0")
+    toks = p.stdout.decode("utf-8", "replace").split("\0")
     res = ["err"] * len(syms)
     cur = None
     j = 0
@@ -1107,6 +1120,8 @@ def classify(backend, p, reason, obs):
             return "%s:string-with-backslash" % backend
         if backend == "bash" and any(c in s for s in flat for c in "$`!"):
             return "bash:string-with-expansion"
+        if any(ord(ch) > 127 for s in flat for ch in s):
+            return "%s:non-ascii" % backend
         if backend == "fortran" and reason == "compile-error" and len({len(s) for s in flat}) > 1:
             return "fortran:str-array-different-lengths"
     if backend == "fortran":
@@ -1316,6 +1331,8 @@ def judge_case(ctx, c, r, impl, observed, info):
     keys, text = impl
     sel = spec_select(c.ps, c.query, c.tags)
     ctx.count("backend." + b)
+    if any(p.kind == "str" and any(ord(ch) > 127 for x in p.flat() for ch in x) for p in sel):
+        ctx.count("non-ascii-string." + b)
     if c.query is not None or c.tags is not None:
         ctx.count("selection")
     nontriv = any(isinstance(p.value, list) for p in sel) or len(sel) >= 3
@@ -1518,6 +1535,7 @@ def judge_data_case(ctx, c, m, sel, observed):
     for p in sel:
         if p.name not in observed or not deep_equal(observed[p.name], exp[p.name]):
             ctx.violation("toml:string-backslash-x" if toml_x(p) else
+                          "%s:non-ascii" % b if (p.kind == "str" and any(ord(ch) > 127 for x in p.flat() for ch in x)) else
                           "%s:%s%s:%s" % (b, p.kind, p.bits or "", "array" if isinstance(p.value, list) else "scalar"),
                           "%s export of %s = %r loads as %r" % (b, p.name, exp[p.name], observed.get(p.name)),
                           c.replay(param=p.brief(), observed=observed.get(p.name)))
